@@ -3,6 +3,7 @@ R1 CarIndex.tla (build loop + serving, every layout x header size); R2 Gen_Ledge
 R3 real CAR (reference encoder) -> real `index all` -> real Epoch, CAR served locally and over loopback HTTP;
 R4 Trace_CarIndex judges every lookup against the ground truth written by the CAR builder."""
 from core import Inconclusive, sha
+from props.verifyidx import run_verifyidx
 
 MC = "SPECIFICATION Spec\nCONSTANTS\n MaxLen = {n}\n BodySet = {{127, 128, 16384}}\n HdrSet = {{59, 60}}\nINVARIANT AllResolve\nINVARIANT RunningOffset\nCHECK_DEADLOCK FALSE\n"
 GEN = """SPECIFICATION GSpec
@@ -62,6 +63,9 @@ def run(ctx):
         case = cases[0] if ctx.replay else None
         ctx.violation({"op": "index-all", "via": o["via"], "note": o["note"]},
                       f"epoch {o['epoch']['epoch']} ({o['note']}, {len(o['secs'])} sections, CAR via {o['via']}): {why}"[:900], case=case, obs=small)
+    if not ctx.replay:
+        ctx.reject_detail = {}
+        run_verifyidx(ctx, cases[:(3 if q else 24)])
     ctx.samples += cases[:1]
     ctx.extra["epochs_indexed"] = len({(o["case"]) for o in obs})
     ctx.extra["index_generation_failed"] = [o["inconclusive"][-200:] for o in incon][:3]
